@@ -145,8 +145,10 @@ pub fn run_pipeline_case(
     let pcs_ref = precompiles::build(&s.precompiles, &precompile_log_ref);
 
     // ---------------- reference (outside the simulator, fresh database instance)
-    let ref_faulty = fclass == FaultClass::PersistentErrors;
-    let ref_db = SimDb::from_scenario(s, ref_faulty, true);
+    // The main reference is always fault-free: data (outcomes, deltas, bundle) is right iff it equals
+    // fault-free in-order execution. Persistent faults get a second reference on the same faulty
+    // database, which decides the expected error, failing index and prefix.
+    let ref_db = SimDb::from_scenario(s, false, true);
     let mut ref_state = reference::new_ref_state(&ref_db, s.bundle_update);
     let first_entry = s.callers.first().and_then(|c| c.first()).cloned().unwrap_or(Entry::Execute);
     let preload = takes_parallel_path(s, &first_entry);
@@ -159,6 +161,13 @@ pub fn run_pipeline_case(
         ref_second = Some(reference::run_reference_block(&mut ref_state, &s.evm, block2, txs2, &pcs_ref, true));
     }
     let ref_bundle = reference::take_ref_bundle(&mut ref_state, want.retention());
+    let faulty = (fclass == FaultClass::PersistentErrors).then(|| {
+        let db_f = SimDb::from_scenario(s, true, false);
+        let mut st_f = reference::new_ref_state(&db_f, s.bundle_update);
+        let block_f = reference::run_reference_block(&mut st_f, &s.evm, &s.block, &s.txs, &pcs_ref, preload);
+        let bundle_f = reference::take_ref_bundle(&mut st_f, want.retention());
+        (block_f, bundle_f)
+    });
     let expected_first = Arc::new(ref_first.steps.clone());
     let expected_second = ref_second.as_ref().map(|b| Arc::new(b.steps.clone()));
 
@@ -192,7 +201,7 @@ pub fn run_pipeline_case(
         probes: monitor.probes.clone(),
         rt_faults: fault_counts,
         trace_hash,
-        reference_error: ref_first.error.is_some(),
+        reference_error: ref_first.error.is_some() || faulty.as_ref().is_some_and(|(b, _)| b.error.is_some()),
         txs: s.txs.len(),
         workers: s.grevm.concurrency,
         ..CaseStats::default()
@@ -282,95 +291,105 @@ pub fn run_pipeline_case(
                         findings.push(finding("C05", "unexpected_panic", format!("entry point panicked: {kind:?}")));
                     }
                 }
-                Some(CallOutcome::Ok) => match fclass {
-                    FaultClass::None | FaultClass::PersistentErrors => {
-                        if let Some((k, e)) = &ref_first.error {
-                            findings.push(finding(
-                                "C04",
-                                "error_not_reported",
-                                format!("execute() returned Ok but in-order execution fails at tx {k} with {e:?}"),
-                            ));
-                        } else if !policy_on {
-                            if let Some(d) = diff_outcomes(actual_outcomes, &outcomes_of(&ref_first)) {
-                                let skipped = d.contains("Skipped");
-                                findings.push(finding(if skipped { "C03" } else { "C01" }, "outcomes", d));
-                            } else if !second_expected && let Some(d) = diff_bundles(&bundle, &ref_bundle) {
-                                if std::env::var_os("VERIF_DEBUG").is_some() {
-                                    eprintln!("ACTUAL BUNDLE: {bundle:#?}\nEXPECTED BUNDLE: {ref_bundle:#?}");
-                                }
-                                findings.push(finding("C01", "bundle", d));
+                Some(CallOutcome::Ok) => {
+                    // Ok (also when a fault was absorbed by a cache): the data must equal fault-free
+                    // in-order execution.
+                    let (p_out, c_out, c_bundle) = match fclass {
+                        FaultClass::None | FaultClass::PersistentErrors => ("C01", "outcomes", "bundle"),
+                        _ => ("C04", "transient.outcomes", "transient.bundle"),
+                    };
+                    if let Some((k, e)) = &ref_first.error {
+                        findings.push(finding(
+                            "C04",
+                            "error_not_reported",
+                            format!("execute() returned Ok but in-order execution fails at tx {k} with {e:?}"),
+                        ));
+                    } else if !policy_on {
+                        if let Some(d) = diff_outcomes(actual_outcomes, &outcomes_of(&ref_first)) {
+                            let skipped = d.contains("Skipped");
+                            findings.push(finding(if skipped && p_out == "C01" { "C03" } else { p_out }, c_out, d));
+                        } else if !second_expected && let Some(d) = diff_bundles(&bundle, &ref_bundle) {
+                            if std::env::var_os("VERIF_DEBUG").is_some() {
+                                eprintln!("ACTUAL BUNDLE: {bundle:#?}\nEXPECTED BUNDLE: {ref_bundle:#?}");
                             }
+                            findings.push(finding(p_out, c_bundle, d));
                         }
                     }
-                    FaultClass::TransientErrors | FaultClass::Panics => {
-                        // absorbed: must equal the fault-free in-order result
-                        if ref_first.error.is_none() && !policy_on {
-                            if let Some(d) = diff_outcomes(actual_outcomes, &outcomes_of(&ref_first)) {
-                                findings.push(finding("C04", "transient.outcomes", d));
-                            } else if !second_expected && let Some(d) = diff_bundles(&bundle, &ref_bundle) {
-                                findings.push(finding("C04", "transient.bundle", d));
-                            }
-                        }
-                    }
-                },
+                }
                 Some(CallOutcome::Err { txid, error, kind }) => {
                     stats.call_error = true;
+                    let k = *txid;
+                    // bundle of exactly k fault-free in-order transactions
+                    let prefix_bundle = |k: usize| {
+                        let db_k = SimDb::from_scenario(s, false, false);
+                        let mut st_k = reference::new_ref_state(&db_k, s.bundle_update);
+                        let _ = reference::run_reference_block(&mut st_k, &s.evm, &s.block, &s.txs[..k.min(s.txs.len())], &pcs_ref, true);
+                        reference::take_ref_bundle(&mut st_k, want.retention())
+                    };
+                    let clean_exp = outcomes_of(&ref_first);
+                    // which reference failure (if any) does this error reproduce?
+                    let matches_ref = |r: &Option<(usize, revm_context::result::EVMError<crate::simdb::SimDbError>)>| {
+                        r.as_ref().is_some_and(|(rk, re)| *rk == k && format!("{re:?}") == *error)
+                    };
                     match fclass {
-                        FaultClass::None | FaultClass::PersistentErrors => match &ref_first.error {
-                            None => findings.push(finding(
-                                "C04",
-                                "spurious_error",
-                                format!("execute() returned error at tx {txid}: {error} but in-order execution completes"),
-                            )),
-                            Some((k, e)) => {
-                                let expected_text = format!("{e:?}");
-                                if txid != k || *error != expected_text {
-                                    findings.push(finding(
-                                        "C04",
-                                        "wrong_error",
-                                        format!("execute() error (tx {txid}, {error}) != in-order error (tx {k}, {expected_text})"),
-                                    ));
-                                }
-                                let exp = outcomes_of(&ref_first);
-                                if let Some(d) = diff_outcomes(actual_outcomes, &exp) {
+                        FaultClass::None | FaultClass::PersistentErrors => {
+                            let faulty_err = faulty.as_ref().and_then(|(b, _)| b.error.clone());
+                            let genuine = matches_ref(&ref_first.error) || matches_ref(&faulty_err);
+                            // An earlier faulty read may have been absorbed by Grevm's committed cache
+                            // (it caches created contracts; revm's State does not): a database error on
+                            // a faulty key at a LATER index is then still faithful.
+                            let later_faulty_key = !genuine &&
+                                *kind == ErrKind::Database &&
+                                faulty_err.as_ref().is_some_and(|(rk, _)| k > *rk) &&
+                                ref_first.error.is_none();
+                            if !genuine && !later_faulty_key {
+                                let class = if ref_first.error.is_none() && faulty_err.is_none() { "spurious_error" } else { "wrong_error" };
+                                findings.push(finding(
+                                    "C04",
+                                    class,
+                                    format!(
+                                        "execute() error (tx {k}, {error}) but in-order execution: fault-free {:?}, on the faulty database {:?}",
+                                        ref_first.error.as_ref().map(|(i, e)| (i, format!("{e:?}"))),
+                                        faulty_err.as_ref().map(|(i, e)| (i, format!("{e:?}")))
+                                    ),
+                                ));
+                            }
+                            if actual_outcomes.len() != k {
+                                findings.push(finding(
+                                    "C04",
+                                    "error.prefix_len",
+                                    format!("{} outcomes returned with error at tx {k}", actual_outcomes.len()),
+                                ));
+                            } else if k <= clean_exp.len() {
+                                if let Some(d) = diff_outcomes(actual_outcomes, &clean_exp[..k]) {
                                     findings.push(finding("C04", "error.prefix_outcomes", d));
-                                } else if actual_outcomes.len() != *k {
-                                    findings.push(finding(
-                                        "C04",
-                                        "error.prefix_len",
-                                        format!("{} outcomes returned with error at tx {k}", actual_outcomes.len()),
-                                    ));
-                                } else if !policy_on && let Some(d) = diff_bundles(&bundle, &ref_bundle) {
+                                } else if !policy_on && let Some(d) = diff_bundles(&bundle, &prefix_bundle(k)) {
                                     findings.push(finding("C04", "error.prefix_bundle", d));
                                 }
+                            } else {
+                                findings.push(finding("C04", "error.prefix_len", format!("error at tx {k} beyond the in-order failure point")));
                             }
-                        },
+                        }
                         FaultClass::TransientErrors | FaultClass::Panics => {
-                            // reported: must be a database error with an exact k-prefix of the fault-free run
-                            if *kind != ErrKind::Database && ref_first.error.is_none() {
-                                findings.push(finding("C04", "transient.wrong_error_kind", format!("tx {txid}: {error}")));
+                            // reported: a database error (or the genuine fault-free failure) with an
+                            // exact k-prefix of the fault-free run
+                            if *kind != ErrKind::Database && !matches_ref(&ref_first.error) {
+                                findings.push(finding("C04", "transient.wrong_error_kind", format!("tx {k}: {error}")));
                             }
-                            let exp = outcomes_of(&ref_first);
-                            let k = *txid;
                             if actual_outcomes.len() != k {
                                 findings.push(finding(
                                     "C04",
                                     "transient.prefix_len",
                                     format!("{} outcomes returned with error at tx {k}", actual_outcomes.len()),
                                 ));
-                            } else if k <= exp.len() {
-                                if let Some(d) = diff_outcomes(actual_outcomes, &exp[..k]) {
+                            } else if k <= clean_exp.len() {
+                                if let Some(d) = diff_outcomes(actual_outcomes, &clean_exp[..k]) {
                                     findings.push(finding("C04", "transient.prefix_outcomes", d));
-                                } else if !policy_on {
-                                    // bundle of exactly k in-order transactions on the fault-free database
-                                    let db_k = SimDb::from_scenario(s, false, false);
-                                    let mut st_k = reference::new_ref_state(&db_k, s.bundle_update);
-                                    let _ = reference::run_reference_block(&mut st_k, &s.evm, &s.block, &s.txs[..k], &pcs_ref, true);
-                                    let bundle_k = reference::take_ref_bundle(&mut st_k, want.retention());
-                                    if let Some(d) = diff_bundles(&bundle, &bundle_k) {
-                                        findings.push(finding("C04", "transient.prefix_bundle", d));
-                                    }
+                                } else if !policy_on && let Some(d) = diff_bundles(&bundle, &prefix_bundle(k)) {
+                                    findings.push(finding("C04", "transient.prefix_bundle", d));
                                 }
+                            } else {
+                                findings.push(finding("C04", "transient.prefix_len", format!("error at tx {k} beyond the in-order failure point")));
                             }
                         }
                     }
